@@ -83,6 +83,9 @@ func init() {
 			}
 			add("ws-calls", 2+b, map[string]int{"ws": 1, "calls": 1})
 			add("ws-mixed", 1+b, map[string]int{"ws": 1, "calls": 1, "note": 1, "sub": 1})
+			// only a subscription in flight: small enough for one more level (the closer racing the
+			// execution of the channel-id response)
+			add("ws-sub", 2+b, map[string]int{"ws": 1, "sub": 1})
 			add("ws-big", 1+b, map[string]int{"ws": 1, "big": 1})
 			add("ws-fin-window", 1+b, map[string]int{"ws": 1, "calls": 1, "sub": 1, "reconnect": 1, "fault": int(vnet.FIN)})
 			add("ws-rst-window", 1+b, map[string]int{"ws": 1, "calls": 1, "reconnect": 1, "fault": int(vnet.RST)})
